@@ -265,6 +265,7 @@ func (bf *buffer) Read(p []byte) (int, error) {
 		bf.ccond.L.Lock()
 		for ppos = bf.pseq.get(); cpos >= ppos; ppos = bf.pseq.get() {
 			if bf.isDone() {
+				bf.ccond.L.Unlock()
 				return 0, io.EOF
 			}
 
@@ -323,6 +324,7 @@ func (bf *buffer) ReadPeek(n int) ([]byte, error) {
 	bf.ccond.L.Lock()
 	for ; cpos >= ppos; ppos = bf.pseq.get() {
 		if bf.isDone() {
+			bf.ccond.L.Unlock()
 			return nil, io.EOF
 		}
 
@@ -388,6 +390,7 @@ func (bf *buffer) ReadWait(n int) ([]byte, error) {
 	bf.ccond.L.Lock()
 	for ; next > ppos; ppos = bf.pseq.get() {
 		if bf.isDone() {
+			bf.ccond.L.Unlock()
 			return nil, io.EOF
 		}
 
@@ -544,6 +547,7 @@ func (bf *buffer) waitForWriteSpace(n int) (int64, int, error) {
 		bf.pcond.L.Lock()
 		for cpos = bf.cseq.get(); wrap > cpos; cpos = bf.cseq.get() {
 			if bf.isDone() {
+				bf.pcond.L.Unlock()
 				return 0, 0, io.EOF
 			}
 
